@@ -285,7 +285,7 @@ theorem deserGraph_struct :
     have biv : ∀ v ∈ (deserInits (deserInputs st inputs).1 (inputTable inputs (deserInputs st inputs).2)
         (vinfoTable vinfo) inits).2.2, st.nv ≤ v ∧ v < (deserOutputs st4 tbl4 outputs).1.nv := by
       intro v hv
-      obtain ⟨x, hx⟩ := miv v hv
+      obtain ⟨x, _, hx⟩ := miv v hv
       refine ⟨ok2.ge _ hx, ?_⟩
       have := ok2.lt _ hx
       have := q5.nv_le
